@@ -34,7 +34,7 @@ def render_program(prog, srcfile):
         elif d["kind"] == "link":
             lines.append("link %s 0 0 0 %s" % (path, PNAME(d["tgt"])))
         elif d["kind"] == "glob":
-            opt = {"none": "", "nohl": "-nohardlinks ", "nonrec": "-nonrecursive "}[d["opt"]]
+            opt = {"none": "", "nohl": "-nohardlinks ", "nonrec": "-nonrecursive ", "typef": "-type f ", "typed": "-type d ", "typefd": "-type f -type d ", "namea": "-name a "}[d["opt"]]
             lines.append("glob %s 0750 %d 7 %sg%s" % (path, d["uid"], opt, d["src"]))
     return "\n".join(lines) + "\n"
 
@@ -201,6 +201,23 @@ def boundary_scenarios(work, rng, tier):
     for i, v in enumerate([b"a\0b", b"tail\0", b"\0", b"line1\nline2", b"tab\there", b"\x01\x02", b"\xff\xfe", "h\u00e4ll\u00f6".encode(), b"\xc3", b"=eq=", b"0x41"]):
         s.set_xattr("xv", "user.v%02d" % i, v)
     out.append((s, ["-e"]))
+    # xattrs on regular files and directories only (the kinds the host lets root restore: the unpack -> --pack-dir -x round trip
+    # reads them back from the file system), several sets, a long value shared between sets, one entry with many pairs
+    s = gen.Scenario(work, "b_xattr_files")
+    s.add_dir("/xd", mode=0o750)
+    for i in range(24):
+        p_ = ("/xd/f%02d" % i) if i % 3 else ("/g%02d" % i)
+        s.add_file(p_, b"file %d" % i * (i + 1), uid=i % 4)
+        s.set_xattr(p_.strip("/"), "user.idx", b"%d" % (i % 5))
+        if i % 2:
+            s.set_xattr(p_.strip("/"), "user.shared", b"S" * 40)
+        if i % 7 == 0:
+            s.set_xattr(p_.strip("/"), "trusted.admin", bytes(range(1, 30)))
+            s.set_xattr(p_.strip("/"), "security.capability", b"\x01\x00\x00\x02" + b"\0" * 16)
+    s.set_xattr("xd", "user.dirattr", b"on a directory")
+    for k in range(20):
+        s.set_xattr("g00", "user.many%02d" % k, b"v%d" % k)
+    out.append((s, ["-b", "4096"]))
     # many ids
     nid = 300 if tier == "quick" else 3000
     s = gen.Scenario(work, "b_ids")
